@@ -211,6 +211,18 @@ check("C19", "exploration",
       "finding (all-zero domain indices).",
       "exhaustive enumeration of domain-index vectors and export option tuples against an independent reader")
 
+check("C20", "translation_validation",
+      "Programs = every inline Green's-function kernel discovered by parsing kernels.h (12 kernels x {novec, vec4, vec8, vec16}) x "
+      "{double, single} plus the four shapeset headers x 2 (104 programs; the list is discovered, so an added or removed function "
+      "changes the coverage assertion). Each is compiled from the current header by clang's OpenCL C front end for the host and "
+      "executed on the lattice distance 1e-3..1e3 x 26 directions x 14 normals x wavenumber lattice (real/complex, both signs of the "
+      "imaginary part), with a different input in every vector lane, and compared with the Numba kernel selected for the same kernel "
+      "type (mapping cross-checked against select_cl_kernel and select_numba_kernels) and with an independent closed form.",
+      "DESIGN.md 4/C20 and A.3",
+      "Trusted: clang's OpenCL C front end and libm-based builtins stand in for a device compiler; native_* precision, device "
+      "compilers and the work-group logic of the .cl assembly kernels are not reachable without an OpenCL runtime.",
+      "exhaustive input-lattice execution of every translated kernel against its source-of-truth counterpart")
+
 ALL = ["C%02d" % i for i in range(1, 21)]
 
 
